@@ -1,6 +1,7 @@
 package rules
 
 import (
+	"go/token"
 	"go/ast"
 	"go/types"
 	"strings"
@@ -266,6 +267,125 @@ func c17(c *core.Ctx) {
 		}
 		if n == 0 {
 			rSl.Ok(sum.Key+":no-owner-flag", sum.Decl.Pos(), "SummonSwamp does not use an owner flag")
+		}
+	}
+
+	// C17.lockorder: the swamp's mutex and the chronicler's mutex are always taken in the same order.
+	rLO := c.Rule("C17.lockorder", "the swamp mutex and the chronicler mutex are acquired in one order only: if some function calls into the chronicler (which locks its mutex) while it holds the swamp mutex, then nothing that runs while the chronicler mutex is held - including the callbacks the chronicler invokes through function values - may acquire the swamp mutex. Destroy waits for the chronicler with the swamp mutex held; a flush that calls back into a swamp method taking that mutex then never finishes, Destroy never returns, summons of the name spin and shutdown hangs", 1)
+	{
+		cg := c.CG()
+		type lockID struct{ typ, field string }
+		swampMu := lockID{"swamp", "mu"}
+		chronMu := lockID{"chroniclerV2", "mu"}
+		lockOf := func(info *types.Info, call *ast.CallExpr) (lockID, bool) {
+			fo := core.Callee(info, call)
+			if fo == nil || (fo.Name() != "Lock" && fo.Name() != "RLock") || fo.Pkg() == nil || fo.Pkg().Path() != "sync" {
+				return lockID{}, false
+			}
+			sel, ok := core.Unparen(core.RecvExpr(call)).(*ast.SelectorExpr)
+			if !ok {
+				return lockID{}, false
+			}
+			fld := core.FieldOf(info, sel)
+			n := namedOf(info.TypeOf(sel.X))
+			if fld == nil || n == nil {
+				return lockID{}, false
+			}
+			return lockID{n.Obj().Name(), fld.Name()}, true
+		}
+		// acq[f]: locks f acquires itself or through anything it calls (function values resolved by signature)
+		acq := map[*core.Func]map[lockID]*ast.CallExpr{}
+		var funcs []*core.Func
+		funcs = append(funcs, p.FuncsIn(pkgSwamp)...)
+		funcs = append(funcs, p.FuncsIn(pkgChron)...)
+		for _, f := range funcs {
+			if f.Decl.Body == nil {
+				continue
+			}
+			acq[f] = map[lockID]*ast.CallExpr{}
+			core.Calls(f.Decl.Body, true, func(call *ast.CallExpr) {
+				if id, ok := lockOf(f.Info(), call); ok && (id == swampMu || id == chronMu) {
+					acq[f][id] = call
+				}
+			})
+		}
+		for changed := true; changed; {
+			changed = false
+			for _, f := range funcs {
+				for _, site := range cg.Out[f] {
+					for _, t := range site.Targets {
+						for id, at := range acq[t] {
+							if _, has := acq[f][id]; !has && acq[f] != nil {
+								acq[f][id] = at
+								changed = true
+							}
+						}
+					}
+				}
+			}
+		}
+		// edges: a call made with one of the two locks held whose targets acquire the other
+		type edge struct {
+			f    *core.Func
+			call *ast.CallExpr
+			via  string
+		}
+		var sToC, cToS []edge
+		for _, f := range funcs {
+			if f.Decl.Body == nil || f.Decl.Recv == nil || len(f.Decl.Recv.List) == 0 || len(f.Decl.Recv.List[0].Names) == 0 {
+				continue
+			}
+			rt := namedOf(f.Obj.Type().(*types.Signature).Recv().Type())
+			if rt == nil {
+				continue
+			}
+			var own lockID
+			switch rt.Obj().Name() {
+			case "swamp":
+				own = swampMu
+			case "chroniclerV2":
+				own = chronMu
+			default:
+				continue
+			}
+			other := chronMu
+			if own == chronMu {
+				other = swampMu
+			}
+			key := f.Decl.Recv.List[0].Names[0].Name + "." + own.field
+			info := f.Info()
+			for _, body := range core.Bodies(f.Decl) {
+				fl := core.NewFlow(p, info, body)
+				lk := fl.LockAnalysis(nil)
+				core.Calls(body, false, func(call *ast.CallExpr) {
+					held, ok := lk.HeldAtNode(call)
+					if !ok || held[key] == 0 {
+						return
+					}
+					site := cg.SiteOf(f, call)
+					if site == nil {
+						return
+					}
+					for _, t := range site.Targets {
+						if _, takes := acq[t][other]; takes {
+							e := edge{f, call, t.Key}
+							if own == swampMu {
+								sToC = append(sToC, e)
+							} else {
+								cToS = append(cToS, e)
+							}
+						}
+					}
+				})
+			}
+		}
+		switch {
+		case len(sToC) > 0 && len(cToS) > 0:
+			for _, e := range cToS {
+				rLO.Bad(e.f.Key+"->"+e.via+":chronicler-then-swamp", e.call.Pos(), "this call is made with the chronicler mutex held and reaches an acquisition of the swamp mutex (through "+e.via+"), while "+sToC[0].f.Key+" calls into the chronicler ("+sToC[0].via+") with the swamp mutex held: the two orders deadlock when a flush and that call overlap")
+			}
+		default:
+			rLO.Ok(pkgSwamp+"+chronicler:one-order", token.NoPos, "swamp.mu -> chronicler.mu sites: "+itoa(len(sToC))+", chronicler.mu -> swamp.mu sites: "+itoa(len(cToS)))
 		}
 	}
 
